@@ -5,6 +5,27 @@ NOTES = ("Every check runs: translator -> lake build of the property's theorem m
          "the hook can record the value actually returned (no line is deleted, behaviour is unchanged).")
 NOT_YET = {}
 CLAIMS = {
+    "C03": {
+        "text": "Machine-checked Lean theorems for every vocabulary, rank function (u32), piece, unit list and scratch-buffer prefix: "
+                "linear cached-rank loop = naive canonical merge (linear_eq_spec_partial), heap loop = the same (heap_eq_spec_partial), "
+                "strategy_independent (no hypothesis on ranks), shortcut_iff, spec_fixpoint. Model tied to src/encoder/bytepair.rs by "
+                "differential runs incl. exhaustive small vocabularies with long-padded pieces.",
+        "design_ref": "DESIGN.md §6 C03",
+        "note": "Trusted: Lean kernel + {propext, Classical.choice, Quot.sound}; harness generators; the indexed heap's prior/after links "
+                "are abstracted to list adjacency (guarded by correspondence only). '_partial' = hypothesis that ranks fit u32, always "
+                "true of the code's TokenRank.",
+        "technique": "Lean 4 proof over executable model + differential correspondence with the Rust implementation",
+    },
+    "C04": {
+        "text": "Machine-checked Lean theorems generic in the cost type: unigram_walk (structure of every encoding, all fallbacks, no cost "
+                "laws) and viterbi_optimal_partial (minimal cost among all segmentations inside BoundedCost). The unrestricted optimality "
+                "statement is false of the code (restart value 1e6): kept as known finding F13 with a Lean counterexample. Model tied to "
+                "src/encoder/unigram.rs by differential runs judged by an independent dynamic program.",
+        "design_ref": "DESIGN.md §6 C04, §7 F13",
+        "note": "Partial: optimality only inside BoundedCost (all shipped models and all generated cases lie inside it; the committed "
+                "corpus witness lies outside and is reported as KNOWN-FINDING). Float cost laws are an IEEE-754 assumption.",
+        "technique": "Lean 4 proof over executable model + differential correspondence with the Rust implementation",
+    },
     "C05": {
         "text": "Machine-checked Lean theorems for every start/continuation map, word (valid UTF-8 or not), length limit and fallback: "
                 "encoder loop = greedy longest-match-first specification (wordpiece_eq_greedy), atomic failure (failure_is_atomic, "
